@@ -26,7 +26,7 @@ META = {
         "byte substitutions may legitimately change the decoded value; only the exception type, termination and the short-reply rule are checked for them",
     ],
 }
-ENCAP = (1, 2, 3, 0x64, 0x65, 0x69, 0xFFFF)
+ENCAP = (1, 2, 3, 0x64, 0x65, 0x69, 0xFFFF, 0x100, 0x10000, 0x650000, 0x1000000, 0x80000000, 0xFFFF0000, 0xFFFFFFFF)  # every byte and every half of the 32-bit status word on its own
 EXTS = ((), (0x2105,), (0x0204,), (0x7777,), (1, 2), (0x0000,))
 SUBS = (0x00, 0x01, 0x7F, 0x80, 0xFF)
 
